@@ -196,7 +196,7 @@ v("C08", "unused_not_sorted", [("src/fixtures/cli.rs",
 v("C08", "available_not_sorted", [("src/fixtures/resolver.rs",
   "        available_fixtures.sort_by(|a, b| a.name.cmp(&b.name));\n",
   "")],
-  r"R4a\|.*compute_available_fixtures")
+  r"R4a\|.*(compute|get)_available_fixtures")
 v("C08", "references_not_sorted", [("src/fixtures/resolver.rs",
   "        all_references.sort_by(|a, b| {\n            (&a.file_path, a.line, a.start_char).cmp(&(&b.file_path, b.line, b.start_char))\n        });\n",
   "")],
@@ -212,7 +212,7 @@ v("C16", "mismatch_direction_flipped", [("src/fixtures/resolver.rs",
 v("C16", "cycles_hash_order_again", [("src/fixtures/resolver.rs",
   "        let mut start_fixtures: Vec<&String> = dep_graph.keys().collect();\n        start_fixtures.sort();\n",
   "        let start_fixtures: Vec<&String> = dep_graph.keys().collect();\n")],
-  r"R4a\|.*compute_fixture_cycles")
+  r"R4a\|.*(compute|detect)_fixture_cycles")
 v("C20", "exit_one_before_emptiness_test", [("src/main.rs",
   "    if unused.is_empty() {\n        if format == \"json\" {\n            println!(\"[]\");",
   "    if unused.len() > 1000 {\n        std::process::exit(1);\n    }\n    if unused.is_empty() {\n        if format == \"json\" {\n            println!(\"[]\");")],
